@@ -520,12 +520,21 @@ func (r *recRunner) account(upTo int32) {
 
 // waitParked waits until a goroutine running `fn` is blocked on a channel receive (the wallet's locker goroutine or
 // Stop waiting for recovery() to return: by then the recovery's quit flag is set).
-func waitParked(fn string) {
-	for i := 0; i < 1000; i++ {
+//
+// The condition is a state of the real wallet, not a guess about elapsed time; the limit is only a backstop against a
+// wallet that never gets there (it used to be 2 s, which a starved machine can exceed: the hold would then be released
+// before the quit flag is set and the recovery would run on uninterrupted — notes/FLAKES.md).
+func waitParked(fn string) bool {
+	deadline := time.Now().Add(hardLimit(2 * time.Second))
+	for {
 		if goroutineParked(fn, "chan receive") {
-			return
+			return true
 		}
-		time.Sleep(2 * time.Millisecond)
+		if time.Now().After(deadline) {
+			noteHardTimeout()
+			return false
+		}
+		time.Sleep(time.Millisecond)
 	}
 }
 
@@ -550,7 +559,7 @@ func (r *recRunner) syncAndReport(kv map[string]string, ctx string) (string, str
 	}
 wait:
 	for {
-		switch r.env.waitSync(20 * time.Second) {
+		switch r.env.waitSync(generousLimit) {
 		case "stuck":
 			return "sync-stuck", ""
 		case "done":
@@ -592,7 +601,7 @@ wait:
 				close(release)
 				select {
 				case <-done:
-				case <-time.After(20 * time.Second):
+				case <-time.After(stopTimeout + 10*time.Second): // env.stop gives up by itself after stopTimeout
 					return "sync-stuck", ""
 				}
 				// the batches completed before the interruption are committed
@@ -906,7 +915,7 @@ func (r *recRunner) birthday(kv map[string]string) (string, string) {
 	if env.w.Manager.Birthday().Unix() != bd {
 		return "err birthday-offset", ""
 	}
-	if !env.startSync(20 * time.Second) {
+	if !env.startSync(generousLimit) {
 		return "sync-stuck", ""
 	}
 	bs, err := env.w.BirthdayBlock()
